@@ -1,6 +1,10 @@
 import HpxVerif.Model.Hash
 import HpxVerif.Lemmas.NumReal
 
+import HpxVerif.Lemmas.CellReal4
+
+set_option autoImplicit false   -- an unknown identifier in a statement is an error, never a new variable
+
 /-!
 # C03 — cell geometry accessors are mutually consistent and map back to their cell
 
@@ -47,5 +51,172 @@ theorem sph_coo_rejects_offsets {α : Type} [Num α] (cfg : Cfg) (d h : Nat) (dx
   · split
     · rfl
     · simp [h1]
+
+/-! ## the plane geometry over the reals
+
+A cell is described by `hash < n_hash`, `decode_hash hash = (b, i, j)`, `b < 12`, `i, j < 2^d` (C10's
+`decode_build_inverse` gives that for every cell number).  `cellCx`, `cellCy`, `vtx`, `cooPt`, `InDiamond`, `PlaneDom`,
+`hbI` … are the specification vocabulary of `Lemmas/CellReal*.lean`: base cell `b` has centre `(baseX b, baseY b)`, the
+cell `(b, i, j)` is the diamond of centre `(baseX b + (i−j)/n, baseY b + (i+j+1−n)/n)` and half-diagonal `1/n`. -/
+
+section PlaneGeometry
+open Hpx Hpx.Hash Hpx.Proj Hpx.CellReal
+
+/-- **`center_plane_spec`**: for a valid cell `(b, i, j)` of depth `d`, `center_of_projected_cell` returns `(x, y)` with
+    `y = cy`, `x = cx` reduced modulo 8 (`cx + 8` exactly when `cx < 0`, i.e. `b = 4` and `i < j`), both multiples of
+    `1/n` with `0 ≤ x ≤ 8 − 1/n`, `|y| ≤ 2 − 1/n`; they are the integer coordinates `Layer.centerXY` divided by `n`. -/
+theorem center_plane_spec (cfg : Cfg) (d hash b i j : ℕ) (hh : hash < Layer.nHash d)
+    (hdec : Layer.decodeHash cfg d hash = some ⟨b, i, j⟩) (hb : b < 12) (hi : i < 2 ^ d) (hj : j < 2 ^ d) :
+    ∃ x y : ℝ, centerOfProjectedCell (α := ℝ) cfg d hash = some (x, y) ∧
+      y = cellCy d b i j ∧
+      ((¬ (b = 4 ∧ i < j) ∧ x = cellCx d b i j) ∨ ((b = 4 ∧ i < j) ∧ x = cellCx d b i j + 8)) ∧
+      0 ≤ x ∧ x ≤ 8 - 1 / (2 : ℝ) ^ d ∧ -2 + 1 / (2 : ℝ) ^ d ≤ y ∧ y ≤ 2 - 1 / (2 : ℝ) ^ d ∧
+      x = (((Layer.centerXY d ⟨b, i, j⟩).1 : ℤ) : ℝ) / 2 ^ d ∧ y = (((Layer.centerXY d ⟨b, i, j⟩).2 : ℤ) : ℝ) / 2 ^ d :=
+  Hpx.CellReal.center_plane_spec cfg d hash b i j hh hdec hb hi hj
+
+/-- **`vertices_agree`**: the four vertices are the same whichever accessor returns them — `vertices` is the list of
+    the four `vertex … k` (same plane points given to the same `unproj`), and none of them fails -/
+theorem vertices_agree (cfg : Cfg) (d hash b i j : ℕ) (hh : hash < Layer.nHash d)
+    (hdec : Layer.decodeHash cfg d hash = some ⟨b, i, j⟩) (hb : b < 12) (hi : i < 2 ^ d) (hj : j < 2 ^ d) :
+    ∃ s e n w : ℝ × ℝ, vertices (α := ℝ) cfg d hash = some [s, e, n, w] ∧
+      vertex (α := ℝ) cfg d hash 0 = some s ∧ vertex (α := ℝ) cfg d hash 1 = some e ∧
+      vertex (α := ℝ) cfg d hash 2 = some n ∧ vertex (α := ℝ) cfg d hash 3 = some w :=
+  Hpx.CellReal.vertices_agree cfg d hash b i j hh hdec hb hi hj
+
+/-- **`sph_coo_plane`**: for `dx, dy ∈ [0, 1)`, `sph_coo` un-projects the plane point
+    `(cx + (dx − dy)/n mod 8, cy + (dx + dy − 1)/n)`; this point is in `[0, 8) × [-2, 2]` and, before the reduction
+    modulo 8, in the closed diamond of the cell -/
+theorem sph_coo_plane (cfg : Cfg) (d hash b i j : ℕ) (dx dy : ℝ) (hh : hash < Layer.nHash d)
+    (hdec : Layer.decodeHash cfg d hash = some ⟨b, i, j⟩) (hb : b < 12) (hi : i < 2 ^ d) (hj : j < 2 ^ d)
+    (hx0 : 0 ≤ dx) (hx1 : dx < 1) (hy0 : 0 ≤ dy) (hy1 : dy < 1) :
+    sphCoo (α := ℝ) cfg d hash dx dy = some (unprojT (cooPt d b i j dx dy).1 (cooPt d b i j dx dy).2) ∧
+    0 ≤ (cooPt d b i j dx dy).1 ∧ (cooPt d b i j dx dy).1 < 8 ∧
+    InDiamond (cellCx d b i j) (cellCy d b i j) (1 / 2 ^ d)
+      (cellCx d b i j + (dx - dy) / 2 ^ d) (cellCy d b i j + (dx + dy - 1) / 2 ^ d) :=
+  Hpx.CellReal.sph_coo_plane cfg d hash b i j dx dy hh hdec hb hi hj hx0 hx1 hy0 hy1
+
+/-- the middle of the cell is its centre: `sph_coo(h, 1/2, 1/2) = center(h)` -/
+theorem sph_coo_half (cfg : Cfg) (d hash b i j : ℕ) (hh : hash < Layer.nHash d)
+    (hdec : Layer.decodeHash cfg d hash = some ⟨b, i, j⟩) (hb : b < 12) (hi : i < 2 ^ d) (hj : j < 2 ^ d) :
+    sphCoo (α := ℝ) cfg d hash (1 / 2) (1 / 2) = center (α := ℝ) cfg d hash :=
+  Hpx.CellReal.sph_coo_half cfg d hash b i j hh hdec hb hi hj
+
+/-- **`path_points_on_border`**: when the two directions are adjacent cardinal points, every point of the path lies on
+    the border of the diamond of centre `c` and half-diagonal `o` -/
+theorem path_points_on_border (c : ℝ × ℝ) (o : ℝ) (ho : 0 ≤ o) (f g nseg t : ℕ) (ht : t ≤ nseg) (hf : f < 4) (hg : g < 4)
+    (hadj : (f + g) % 2 = 1) : OnDiamond c.1 c.2 o (sidePt c o f g nseg t).1 (sidePt c o f g nseg t).2 :=
+  Hpx.CellReal.sidePt_on_border c o ho f g nseg t ht hf hg hadj
+
+/-- end points of a side path are the vertices returned by `vertex` (same plane points given to `unproj`) -/
+theorem path_side_endpoints (cfg : Cfg) (d hash b i j f g : ℕ) (nseg : ℕ) (hh : hash < Layer.nHash d)
+    (hdec : Layer.decodeHash cfg d hash = some ⟨b, i, j⟩) (hb : b < 12) (hi : i < 2 ^ d) (hj : j < 2 ^ d)
+    (hf : f < 4) (hg : g < 4) (hn : 0 < nseg) :
+    ∃ l, pathAlongCellSide (α := ℝ) cfg d hash f g true nseg = some l ∧ l.length = nseg + 1 ∧
+      l[0]? = vertex (α := ℝ) cfg d hash f ∧ l[nseg]? = vertex (α := ℝ) cfg d hash g :=
+  Hpx.CellReal.path_side_endpoints cfg d hash b i j f g nseg hh hdec hb hi hj hf hg hn
+
+/-- the path along the whole edge passes through the four vertices returned by `vertex`, at the indices
+    `0, nseg, 2·nseg, 3·nseg`, in the order of the cycle -/
+theorem path_edge_vertices (cfg : Cfg) (d hash b i j start : ℕ) (cw : Bool) (nseg : ℕ) (hh : hash < Layer.nHash d)
+    (hdec : Layer.decodeHash cfg d hash = some ⟨b, i, j⟩) (hb : b < 12) (hi : i < 2 ^ d) (hj : j < 2 ^ d)
+    (hs : start < 4) (hn : 0 < nseg) :
+    let nx := if cw then nextClockwise else nextCounterClockwise
+    ∃ l, pathAlongCellEdge (α := ℝ) cfg d hash start cw nseg = some l ∧ l.length = 4 * nseg ∧
+      l[0]? = vertex (α := ℝ) cfg d hash start ∧ l[nseg]? = vertex (α := ℝ) cfg d hash (nx start) ∧
+      l[2 * nseg]? = vertex (α := ℝ) cfg d hash (nx (nx start)) ∧
+      l[3 * nseg]? = vertex (α := ℝ) cfg d hash (nx (nx (nx start))) :=
+  Hpx.CellReal.path_edge_vertices cfg d hash b i j start cw nseg hh hdec hb hi hj hs hn
+
+/-- **`grid_points_in_closed_cell`**: every plane point of the grid lies in the closed diamond -/
+theorem grid_points_in_closed_cell (c : ℝ × ℝ) (o : ℝ) (ho : 0 ≤ o) (nseg t : ℕ) (ht : t < (nseg + 1) * (nseg + 1)) :
+    InDiamond c.1 c.2 o (gridPt c o nseg t).1 (gridPt c o nseg t).2 :=
+  Hpx.CellReal.gridPt_in_diamond c o ho nseg t ht
+
+/-- `grid` for a valid cell: all points succeed and are the un-projections of the plane points `gridPt` around the
+    centre of the cell -/
+theorem grid_plane (cfg : Cfg) (d hash b i j nseg : ℕ) (hh : hash < Layer.nHash d)
+    (hdec : Layer.decodeHash cfg d hash = some ⟨b, i, j⟩) (hb : b < 12) (hi : i < 2 ^ d) (hj : j < 2 ^ d) :
+    grid (α := ℝ) cfg d hash nseg =
+      some ((List.range ((nseg + 1) * (nseg + 1))).map fun t =>
+        unprojT (gridPt (norm8 (cellCx d b i j), cellCy d b i j) (1 / 2 ^ d) nseg t).1
+          (gridPt (norm8 (cellCx d b i j), cellCy d b i j) (1 / 2 ^ d) nseg t).2) :=
+  Hpx.CellReal.grid_plane cfg d hash b i j nseg hh hdec hb hi hj
+
+/-- the corners of `grid` and the vertices of `vertex`/`vertices`: S, E, N are the same plane points given to
+    `unproj`; W is the same plane point **unless the centre of the cell has abscissa 0** (`b = 4`, `i = j`), where
+    `grid` un-projects `(−1/n, cy)` and `vertex`/`vertices` un-project `(8 − 1/n, cy)` (same point modulo 8). -/
+theorem grid_corners_agree (cfg : Cfg) (d hash b i j nseg : ℕ) (hh : hash < Layer.nHash d)
+    (hdec : Layer.decodeHash cfg d hash = some ⟨b, i, j⟩) (hb : b < 12) (hi : i < 2 ^ d) (hj : j < 2 ^ d) (hn : 0 < nseg) :
+    ∃ l, grid (α := ℝ) cfg d hash nseg = some l ∧ l.length = (nseg + 1) * (nseg + 1) ∧
+      l[0]? = vertex (α := ℝ) cfg d hash 0 ∧
+      l[nseg * (nseg + 1)]? = vertex (α := ℝ) cfg d hash 1 ∧
+      l[nseg * (nseg + 1) + nseg]? = vertex (α := ℝ) cfg d hash 2 ∧
+      (¬ (b = 4 ∧ i = j) → l[nseg]? = vertex (α := ℝ) cfg d hash 3) ∧
+      (b = 4 ∧ i = j → l[nseg]? = some (unprojT (-(1 / 2 ^ d)) (cellCy d b i j)) ∧
+        vertex (α := ℝ) cfg d hash 3 = some (unprojT (8 - 1 / 2 ^ d) (cellCy d b i j))) :=
+  Hpx.CellReal.grid_corners_agree cfg d hash b i j nseg hh hdec hb hi hj hn
+
+/-- **`hash_with_dxdy_plane`** (LUT curve, regular case): the back end returns a valid cell number which decodes to a
+    cell `(b, i, j)` whose closed diamond contains `(X, Y)` (abscissa modulo 8), offsets in `[0, 1)`, and `sph_coo` of the
+    result un-projects exactly `(X, Y)`. -/
+theorem hash_with_dxdy_plane (cfg : Cfg) (hbmi : cfg.bmi = false) (d : ℕ) (hd : d ≤ 29) (X Y : ℝ) (h : PlaneDom X Y)
+    (h3 : 3 ≤ hbI d X Y + hbJ d X Y) (h5 : hbI d X Y + hbJ d X Y ≤ 5) :
+    ∃ hash b i j dx dy, hashBack (α := ℝ) cfg d (X, Y) = some (hash, dx, dy) ∧ hash < Layer.nHash d ∧
+      Layer.decodeHash cfg d hash = some ⟨b, i, j⟩ ∧ b < 12 ∧ i < 2 ^ d ∧ j < 2 ^ d ∧
+      0 ≤ dx ∧ dx < 1 ∧ 0 ≤ dy ∧ dy < 1 ∧
+      cooPt d b i j dx dy = (X, Y) ∧
+      (InDiamond (cellCx d b i j) (cellCy d b i j) (1 / 2 ^ d) X Y ∨
+        InDiamond (cellCx d b i j) (cellCy d b i j) (1 / 2 ^ d) (X - 8) Y) ∧
+      sphCoo (α := ℝ) cfg d hash dx dy = some (unprojT X Y) ∧ unproj X Y = some (unprojT X Y) :=
+  Hpx.CellReal.hash_with_dxdy_plane cfg hbmi d hd X Y h h3 h5
+
+/-- **the wrong cell of F11.**  North-west border of the north-cap base cell `q` (seam `lon = q·π/2`), at a point whose
+    scaled coordinate `u` **is** an integer (a vertex of a cell of depth `d` on that seam): both sub-cell offsets are `0`,
+    the comparison `dx > dy` of the branch `k = −1` fails, and the code answers the cell `((q+3) mod 4, n−1, 0)` — the
+    easternmost cell of the previous base cell — with offsets `(0, 0)`.  The point is the north vertex of the cell
+    `(q, i, n−1)` (position `(0, 1)` in it).  Unless it is the west vertex of base cell `q` (`i = 0`), it does **not**
+    belong to the closed diamond of the returned cell, whatever multiple of 8 is added to the abscissa. -/
+theorem f11_wrong_cell_on_nw_seam_vertices (cfg : Cfg) (hbmi : cfg.bmi = false) (d : ℕ) (hd : d ≤ 29) (q : ℕ) (hq : q < 4)
+    (X Y : ℝ) (hX0 : 0 ≤ X) (hX8 : X < 8) (hin : InDiamond (baseX q) (baseY q) 1 X Y)
+    (hNE : X + Y ≠ baseX q + baseY q + 1) (hNW : Y - X = baseY q - baseX q + 1) (hfrac : hbdx d X Y = 0) :
+    ∃ hash : ℕ, ∃ i : ℕ, hashBack (α := ℝ) cfg d (X, Y) = some (hash, 0, 0) ∧
+      hash = ((q + 3) % 4) <<< (d <<< 1) ||| interleave (2 ^ d - 1) 0 ∧ hash < Layer.nHash d ∧
+      Layer.decodeHash cfg d hash = some ⟨(q + 3) % 4, 2 ^ d - 1, 0⟩ ∧ i < 2 ^ d ∧
+      -- where the point really is: the north vertex of `(q, i, n−1)`
+      X = 2 * (q : ℝ) + (i : ℝ) / 2 ^ d ∧ Y = 1 + (i : ℝ) / 2 ^ d ∧
+      cellCx d q i (2 ^ d - 1) + (0 - 1) / 2 ^ d = X ∧ cellCy d q i (2 ^ d - 1) + (0 + 1 - 1) / 2 ^ d = Y ∧
+      -- the returned cell does not contain it
+      (0 < i → ∀ m : ℤ, ¬ InDiamond (cellCx d ((q + 3) % 4) (2 ^ d - 1) 0 + 8 * m) (cellCy d ((q + 3) % 4) (2 ^ d - 1) 0)
+        (1 / 2 ^ d) X Y) :=
+  Hpx.CellReal.f11_north_west_wrong_cell cfg hbmi d hd q hq X Y hX0 hX8 hin hNE hNW hfrac
+
+/-- **`hash_center_real` in the plane (LUT curve)**: for the cell number `h` built from valid parts `(b, i, j)`,
+    `center_of_projected_cell(h)` succeeds and the back end of `hash_with_dxdy` sends it back to `(h, 1/2, 1/2)`;
+    more generally the plane point of `sph_coo(h, dx, dy)` is sent back to `(h, dx, dy)`. -/
+theorem hash_center_plane (cfg : Cfg) (hbmi : cfg.bmi = false) (d : ℕ) (hd : d ≤ 29) (b i j : ℕ) (hb : b < 12)
+    (hi : i < 2 ^ d) (hj : j < 2 ^ d) :
+    let h := (b <<< (d <<< 1)) ||| interleave i j
+    h < Layer.nHash d ∧ Layer.decodeHash cfg d h = some ⟨b, i, j⟩ ∧
+    (∃ p, centerOfProjectedCell (α := ℝ) cfg d h = some p ∧ hashBack (α := ℝ) cfg d p = some (h, 1 / 2, 1 / 2)) ∧
+    (∀ dx dy : ℝ, 0 ≤ dx → dx < 1 → 0 ≤ dy → dy < 1 →
+      sphCoo (α := ℝ) cfg d h dx dy = unproj (cooPt d b i j dx dy).1 (cooPt d b i j dx dy).2 ∧
+      hashBack (α := ℝ) cfg d (cooPt d b i j dx dy) = some (h, dx, dy)) :=
+  Hpx.CellReal.hash_center_plane cfg hbmi d hd b i j hb hi hj
+
+/-- for every point `(X, Y)`, `0 ≤ X < 8`, of the closed diamond of a base cell `b`, the branch index of `depth0_bits`
+    is `k = 5 − (I + J)` with `I + J = 5 − b/4 + [north-east border] + [north-west border] ∈ 3..7`: the branches
+    `k = 3`, `k = 4` and the final `None` are unreachable in exact arithmetic (they exist for rounding errors);
+    `I + J ≥ 6` needs `b < 4` (a border `|X − Xb| = 2 − Y` of a polar-cap triangle, i.e. a seam `lon = k·π/2`) or
+    `b < 8` with both borders (north vertex of an equatorial base cell). -/
+theorem depth0_branch_reached (d b : ℕ) (X Y : ℝ) (hb : b < 12) (hX0 : 0 ≤ X) (hX8 : X < 8)
+    (hin : InDiamond (baseX b) (baseY b) 1 X Y) :
+    hbI d X Y + hbJ d X Y + b / 4 = 5 + (if X + Y = baseX b + baseY b + 1 then 1 else 0)
+      + (if Y - X = baseY b - baseX b + 1 then 1 else 0) ∧
+    3 ≤ hbI d X Y + hbJ d X Y ∧ hbI d X Y + hbJ d X Y ≤ 7 ∧
+    (6 ≤ hbI d X Y + hbJ d X Y → b < 8 ∧ 1 ≤ Y ∧ (b < 4 → |X - baseX b| = 2 - Y)) :=
+  Hpx.CellReal.branch_sum d b X Y hb hX0 hX8 hin
+
+
+end PlaneGeometry
 
 end Hpx.C03
